@@ -470,8 +470,6 @@ var quirkList = []struct {
 	q   rxparse.Quirks
 }{
 	{"class:script-always-folded", rxparse.Quirks{ScriptAlwaysFolded: true}},
-	{"class:standalone-escape-not-folded", rxparse.Quirks{StandaloneEscapeNotFolded: true}},
-	{"class:category-folded-by-table-only", rxparse.Quirks{CategoryFoldByTable: true}},
 	{"class:single-member-class-escape-taken-as-character", rxparse.Quirks{SingleRuneClassIsChar: true}},
 }
 
